@@ -236,4 +236,219 @@ theorem C19_defaults_isolated (w : World) (hw : WF w) (hs : InScope w.env) (targ
     · simp [hs] at h'
     · have := hw.root_lt i hr; omega
 
+/-! ### histories -/
+
+def idsOfRoots (rs : List (Option Val)) : List Nat := mutIdsL (rs.filterMap id)
+
+theorem rootIds_eq (w : World) : w.rootIds = idsOfRoots w.roots := rfl
+
+theorem mem_idsOfRoots_push {rs : List (Option Val)} {v : Val} {i : Nat} :
+    i ∈ idsOfRoots (rs ++ [some v]) ↔ i ∈ idsOfRoots rs ∨ i ∈ v.mutIds := by
+  simp [idsOfRoots, List.filterMap_append, mutIdsL_append, mutIdsL]
+
+theorem idsOfRoots_push_none (rs : List (Option Val)) : idsOfRoots (rs ++ [none]) = idsOfRoots rs := by
+  simp [idsOfRoots, List.filterMap_append]
+
+theorem WF_push (w : World) (hw : WF w) (n' : Nat) (hn : w.next ≤ n') (v : Val)
+    (hlt : ∀ i ∈ v.mutIds, i < n') (hiso : ∀ i ∈ v.mutIds, i ∈ w.env.declIds → i ∈ w.env.leak) :
+    WF { w with next := n', roots := w.roots ++ [some v] } := by
+  refine ⟨fun i hi => ?_, fun i hi => ?_, fun i hi hd => ?_⟩
+  · have := hw.decl_lt i hi; show i < n'; omega
+  · show i < n'
+    rw [rootIds_eq] at hi
+    rcases mem_idsOfRoots_push.mp hi with h | h
+    · have := hw.root_lt i h; omega
+    · exact hlt i h
+  · rw [rootIds_eq] at hi
+    rcases mem_idsOfRoots_push.mp hi with h | h
+    · exact hw.iso i h hd
+    · exact hiso i h hd
+
+theorem WF_push_none (w : World) (hw : WF w) (n' : Nat) (hn : w.next ≤ n') :
+    WF { w with next := n', roots := w.roots ++ [none] } := by
+  refine ⟨fun i hi => ?_, fun i hi => ?_, fun i hi hd => ?_⟩
+  · have := hw.decl_lt i hi; show i < n'; omega
+  · show i < n'
+    rw [rootIds_eq] at hi
+    simp only [idsOfRoots_push_none] at hi
+    have := hw.root_lt i hi; omega
+  · rw [rootIds_eq] at hi
+    simp only [idsOfRoots_push_none] at hi
+    exact hw.iso i hi hd
+
+/-- a caller's write with atoms, to an object that is no declared default object, keeps the world
+well-formed and leaves the declarations alone -/
+theorem writeAll_WF (w : World) (hw : WF w) (i : Nat) (f : Kind → List String → List Val → Option (List String × List Val))
+    (hi : i ∉ w.env.declIds) (hf : AddsNoIds f) :
+    WF (w.writeAll i f) ∧ (w.writeAll i f).env = w.env ∧ (∀ j ∈ (w.writeAll i f).rootIds, j ∈ w.rootIds) := by
+  have henv := writeAll_env_eq w i f hi
+  have hsub := writeAll_rootIds_sub w i f hf
+  refine ⟨⟨fun j hj => ?_, fun j hj => ?_, fun j hj hd => ?_⟩, henv, hsub⟩
+  · rw [henv] at hj; exact hw.decl_lt j hj
+  · exact hw.root_lt j (hsub j hj)
+  · rw [henv] at hd ⊢; exact hw.iso j (hsub j hj) hd
+
+theorem foldl_writeAll_WF (ps : List (Nat × (Kind → List String → List Val → Option (List String × List Val))))
+    (w0 : World) : ∀ (w : World), WF w → w.env = w0.env → (∀ j ∈ w.rootIds, j ∈ w0.rootIds) →
+    (∀ p ∈ ps, p.1 ∉ w0.env.declIds ∧ AddsNoIds p.2) →
+    WF (ps.foldl (fun w p => w.writeAll p.1 p.2) w) ∧ (ps.foldl (fun w p => w.writeAll p.1 p.2) w).env = w0.env := by
+  induction ps with
+  | nil => intro w hw he _ _; exact ⟨hw, he⟩
+  | cons p ps ih =>
+    intro w hw he hsub hps
+    simp only [List.foldl]
+    have hp := hps p (by simp)
+    obtain ⟨h1, h2, h3⟩ := writeAll_WF w hw p.1 p.2 (by rw [he]; exact hp.1) hp.2
+    exact ih _ h1 (by rw [h2, he]) (fun j hj => hsub j (h3 j hj)) (fun q hq => hps q (List.mem_cons_of_mem _ hq))
+
+theorem root_mem (w : World) (r : Nat) (v : Val) (h : w.root r = some v) : some v ∈ w.roots := by
+  unfold World.root at h
+  cases hr : w.roots[r]? with
+  | none => simp [hr] at h
+  | some o =>
+    simp [hr] at h
+    subst h
+    exact List.mem_of_getElem? hr
+
+theorem step_setattr (w : World) (r : Nat) (fname : String) (v : Val) :
+    w.step (.setattr r fname v) =
+      (match w.root r with
+       | some (.node i (.inst k) ks xs) =>
+           (match w.env[k]? with
+            | some d => ((setattrWrites d fname v (.node i (.inst k) ks xs)).foldl (fun w p => w.writeAll p.1 p.2) w, Outcome.ok)
+            | none => (w, Outcome.skip))
+       | _ => (w, Outcome.skip)) := rfl
+
+theorem step_copy (w : World) (r : Nat) :
+    w.step (.copy r) =
+      (match w.root r with
+       | some v =>
+           (match schemaCopy v { next := w.next } with
+            | (.ok c, s1) => ({ w with next := s1.next, roots := w.roots ++ [some c] }, Outcome.ok)
+            | (.error _, _) => ({ w with roots := w.roots ++ [none] }, Outcome.skip))
+       | none => ({ w with roots := w.roots ++ [none] }, Outcome.skip)) := rfl
+
+/-- every step of a valid history keeps the world well-formed and the declarations unchanged -/
+theorem step_WF (w : World) (hw : WF w) (hs : InScope w.env) (op : Op) (hv : op.Valid w) :
+    WF (w.step op).1 ∧ (w.step op).1.env = w.env := by
+  have hleak : w.env.leak = [] := hs
+  have hnotdecl : ∀ i ∈ w.rootIds, i ∉ w.env.declIds := fun i hi hd => by
+    have := hw.iso i hi hd; simp [hleak] at this
+  cases op with
+  | call target wrapper bump input =>
+    obtain ⟨hin, hnd⟩ := hv
+    rw [step_call w hw target wrapper bump input hin]
+    have hfr := C19_call_frame w target wrapper bump input
+    simp only at hfr
+    cases hr : w.callResult target wrapper bump input with
+    | mk r s1 =>
+      rw [hr] at hfr
+      simp only at hfr
+      have hw1 : WF { w with next := s1.next, roots := w.roots ++ [some input] } :=
+        WF_push w hw s1.next (by have := hfr.1; omega) input (fun i hi => by have := hin i hi; have := hfr.1; omega) hnd
+      cases r with
+      | error e => exact ⟨WF_push_none _ hw1 s1.next (Nat.le_refl _), rfl⟩
+      | ok v =>
+        refine ⟨WF_push _ hw1 s1.next (Nat.le_refl _) v (fun i hi => ?_) (fun i hi hd => ?_), rfl⟩
+        · rcases hfr.2.2 v rfl i hi with h | h | h
+          · have := hin i h; have := hfr.1; omega
+          · simp [hleak] at h
+          · exact h.2
+        · rcases hfr.2.2 v rfl i hi with h | h | h
+          · exact hnd i h hd
+          · exact h
+          · have := hw.decl_lt i hd; omega
+  | mutate i act =>
+    obtain ⟨hi, ha⟩ := hv
+    have hf : AddsNoIds act.apply := act_addsNoIds act (by cases act <;> exact ha)
+    obtain ⟨h1, h2, _⟩ := writeAll_WF w hw i act.apply (hnotdecl i hi) hf
+    exact ⟨h1, h2⟩
+  | setattr r fname v =>
+    have hv' : v.mutIds = [] := hv
+    rw [step_setattr]
+    cases hroot : w.root r with
+    | none => exact ⟨hw, rfl⟩
+    | some rv =>
+      cases rv with
+      | none => exact ⟨hw, rfl⟩
+      | int n => exact ⟨hw, rfl⟩
+      | str x => exact ⟨hw, rfl⟩
+      | node i k ks xs =>
+        cases k with
+        | inst c =>
+          simp only
+          cases hd : w.env[c]? with
+          | none => exact ⟨hw, rfl⟩
+          | some d =>
+            simp only
+            have hmem := root_mem w r _ hroot
+            exact foldl_writeAll_WF _ w w hw rfl (fun _ h => h) (fun p hp => by
+              obtain ⟨h1, h2⟩ := setattrWrites_ok d fname v hv' _ p hp
+              exact ⟨hnotdecl p.1 (rootIds_of_root hmem p.1 h1), h2⟩)
+        | list => exact ⟨hw, rfl⟩
+        | tuple => exact ⟨hw, rfl⟩
+        | set => exact ⟨hw, rfl⟩
+        | fset => exact ⟨hw, rfl⟩
+        | dict => exact ⟨hw, rfl⟩
+        | opq _ => exact ⟨hw, rfl⟩
+  | copy r =>
+    rw [step_copy]
+    cases hroot : w.root r with
+    | none => exact ⟨WF_push_none w hw w.next (Nat.le_refl _), rfl⟩
+    | some rv =>
+      simp only
+      have hfr := schemaCopy_fr rv { next := w.next }
+      have hmem := root_mem w r _ hroot
+      cases hc : schemaCopy rv { next := w.next } with
+      | mk res s1 =>
+        rw [hc] at hfr
+        simp only at hfr
+        cases res with
+        | error e => exact ⟨WF_push_none w hw w.next (Nat.le_refl _), rfl⟩
+        | ok c =>
+          simp only
+          refine ⟨WF_push w hw s1.next hfr.mono c (fun i hi => ?_) (fun i hi hd => ?_), trivial⟩
+          · rcases hfr.out i hi with h | h
+            · have := hw.root_lt i (rootIds_of_root hmem i h); have := hfr.mono; simp only at this; omega
+            · exact h.2
+          · rcases hfr.out i hi with h | h
+            · exact hw.iso i (rootIds_of_root hmem i h) hd
+            · have := hw.decl_lt i hd; simp only at h; omega
+
+/-- **No cross-call state through the declarations.**  Along every valid history — parses that succeed
+or fail, the caller changing objects it reaches through results, assigning attributes, copying
+instances — the declarations, *including every declared default object*, stay exactly what they were,
+and the world stays well-formed.  (Induction on the history; no bound on its length.) -/
+theorem C19_history_preserves_declaration (ops : List Op) :
+    ∀ (w : World), WF w → InScope w.env → ValidHist w ops →
+      (w.run ops).1.env = w.env ∧ WF (w.run ops).1 := by
+  induction ops with
+  | nil => intro w hw _ _; exact ⟨rfl, hw⟩
+  | cons op ops ih =>
+    intro w hw hs hv
+    obtain ⟨h1, h2⟩ := step_WF w hw hs op hv.1
+    have := ih (w.step op).1 h1 (by unfold InScope; rw [h2]; exact hs) hv.2
+    unfold World.run World.runWith
+    cases hst : World.step w op with
+    | mk w1 o =>
+      rw [hst] at this h2
+      simp only
+      cases hrun : World.runWith World.step w1 ops with
+      | mk w2 os =>
+        have e : World.run w1 ops = (w2, os) := hrun
+        rw [e] at this
+        simp only at this ⊢
+        exact ⟨by rw [this.1, h2], this.2⟩
+
+/-- **The outcome of a parse depends only on the declaration, the options and the input.**  After any
+valid history, a parse returns exactly what it returns in the initial world with the allocator at the
+same position — same success or failure, same value, same aliasing with its input. -/
+theorem C19_history_independent (ops : List Op) (w : World) (hw : WF w) (hs : InScope w.env)
+    (hv : ValidHist w ops) (target wrapper bump : Nat) (input : Val) :
+    (w.run ops).1.callResult target wrapper bump input
+      = ({ w with next := (w.run ops).1.next } : World).callResult target wrapper bump input := by
+  have h := (C19_history_preserves_declaration ops w hw hs hv).1
+  unfold World.callResult
+  rw [h]
+
 end Utv.C19
